@@ -115,3 +115,9 @@ Proof.
   revert k; induction owners as [|o r IH]; intros k; cbn [mk_gates lookup]; [discriminate|].
   destruct (k =? g); [|apply IH]. intros H. injection H as <-. split; reflexivity.
 Qed.
+
+Lemma lookup_app gs l g :
+  lookup (gs ++ l) g = match lookup gs g with Some x => Some x | None => lookup l g end.
+Proof.
+  induction gs as [|[k x] r IH]; cbn [app lookup]; [reflexivity|]. destruct (k =? g); [reflexivity|exact IH].
+Qed.
